@@ -12,6 +12,9 @@ acknowledgement number and selective-ACK bitmap, and every outcome of the transp
   `calc_pipe` stays in range, i.e. the two internal panics of that half of `process_incoming_message` are
   unreachable (`ackPart_ok`) - and re-establishes the invariant (the D17 clamp is what makes the lower bound hold);
 * the payload half touches neither the queue nor `last_sent_seq_nr` (`payloadPart_frame`);
+* the state table touches the queue in one place: the remote's FIN accepted in Established discards the never-sent
+  tail (`discard_unsent`, the D22 fix); the invariant's `tail` field - the never-sent tail lies entirely beyond
+  `last_sent_seq_nr` - is what makes that safe (`stateGate_linv`, `discardUnsent_ok`);
 * hence `process_incoming_message` and the whole receive loop preserve it (`recvLoop_linv`);
 * `send_data!`, the first-transmission loop and the recovery retransmission loop preserve it
   (`sendData_linv`, `newDataLoop_linv`, `recoveryLoop_linv`);
@@ -23,7 +26,7 @@ The modular arithmetic goes through `off u d` ("the number `d` steps after `u`")
 convert between the crate's wrap-tolerant distance and plain integers once, so the rest is linear arithmetic.
 -/
 namespace UtpVerif.Props.C10Inv
-open UtpVerif.Model UtpVerif.Lemmas.Segments UtpVerif.Model.VSock
+open UtpVerif.Model UtpVerif.Lemmas.Segments UtpVerif.Model.VSock UtpVerif.Model.Segments
 
 /-- the sequence number `d` steps after `u` (negative `d`: before) -/
 def off (u : Nat) (d : Int) : Nat := (((u : Int) + d) % 65536).toNat
@@ -46,12 +49,11 @@ theorem off_off (u : Nat) (d e : Int) : off (off u d) e = off u (d + e) := by un
 theorem off_nat (u k : Nat) : off u k = (u + k) % 65536 := by unfold off; omega
 theorem wsub_one_off (u : Nat) (hu : u < 65536) : wsub u 1 = off u (-1) := by unfold wsub off; omega
 
-/-- arithmetic core: acknowledging `k` segments and clamping keeps `last_sent − snd_una` within `[-1, len]` -/
+/-- arithmetic core: acknowledging `k` segments and clamping moves `last_sent − snd_una` from `d` to `max (d − k) (−1)` -/
 theorem clamp_range (ls u len k : Nat) (hls : ls < 65536) (hu : u < 65536) (hlen : len ≤ 16000) (hk : k ≤ len)
     (hlo : -1 ≤ seqSub ls u) (hhi : seqSub ls u ≤ len) :
     VSock.clampLastSent ls (advance u k) < 65536 ∧
-    -1 ≤ seqSub (VSock.clampLastSent ls (advance u k)) (advance u k) ∧
-    seqSub (VSock.clampLastSent ls (advance u k)) (advance u k) ≤ ((len - k : Nat) : Int) := by
+    seqSub (VSock.clampLastSent ls (advance u k)) (advance u k) = max (seqSub ls u - k) (-1) := by
   generalize hd : seqSub ls u = d at hlo hhi
   have hls' : ls = off u d := by rw [← hd]; exact eq_off_of_seqSub ls u hls hu
   have hu' : advance u k = off u k := by unfold advance; rw [off_nat]
@@ -70,15 +72,14 @@ theorem clamp_range (ls u len k : Nat) (hls : ls < 65536) (hu : u < 65536) (hlen
   · simp only [hc, if_true]
     have : wsub (advance u k) 1 = off (advance u k) (-1) := wsub_one_off _ hadv
     rw [this, seqSub_off _ _ hadv (by omega)]
-    exact ⟨off_lt _ _, by omega, by omega⟩
+    exact ⟨off_lt _ _, by omega⟩
   · simp only [hc, if_false]
     have : ls = off (advance u k) (d - k) := by
       rw [hu', off_off]
       have e : ((k : Int) + (d - k)) = d := by omega
       rw [e]; exact hls'
     rw [this, seqSub_off _ _ hadv (by omega)]
-    exact ⟨off_lt _ _, by omega, by omega⟩
-
+    exact ⟨off_lt _ _, by omega⟩
 
 /-- Connection-level invariant tying `last_sent_seq_nr` to the segment queue: it is never more than one below the
 first unacknowledged number (the D17 clamp) and never beyond the last queued number + 1 (the FIN's number). -/
@@ -89,6 +90,8 @@ structure LInv (v : VSock) : Prop where
   len : v.segs.segs.length ≤ 16000
   lo : -1 ≤ seqSub v.lastSentSeqNr v.segs.sndUna
   hi : seqSub v.lastSentSeqNr v.segs.sndUna ≤ v.segs.segs.length
+  /-- the never-sent tail of the queue lies entirely beyond `last_sent_seq_nr` (what `discard_unsent` relies on) -/
+  tail : seqSub v.lastSentSeqNr v.segs.sndUna + trailingUnsent v.segs.segs ≤ v.segs.segs.length
 
 theorem shape_length (a b : Segments) (h : shape a = shape b) : a.segs.length = b.segs.length := by
   have := congrArg List.length h
@@ -99,20 +102,21 @@ theorem shape_length (a b : Segments) (h : shape a = shape b) : a.segs.length = 
 theorem recovery_onAck_ok (r : Recovery) (h : Header) (segs : Segments) (ls : Nat) (cc : Cc) (now rtt : Nat)
     (hS : SInv segs) (hg : (seqSub ls segs.sndUna).toNat ≤ segs.segs.length) :
     ∃ r' segs' cc', r.onAck h segs ls cc now rtt = some (r', segs', cc') ∧ SInv segs' ∧
-      segs'.sndUna = segs.sndUna ∧ segs'.segs.length = segs.segs.length := by
+      segs'.sndUna = segs.sndUna ∧ segs'.segs.length = segs.segs.length ∧
+      trailingUnsent segs'.segs = trailingUnsent segs.segs := by
   unfold Recovery.onAck
   dsimp only
   repeat' split
   all_goals first
-    | exact ⟨_, _, _, rfl, hS, rfl, rfl⟩
+    | exact ⟨_, _, _, rfl, hS, rfl, rfl, rfl⟩
     | (rename_i heq
-       obtain ⟨s', p, hcp, hS', hsh, _, _, _, hu, _⟩ := calcPipe_ok segs _ ls rtt now hS hg
+       obtain ⟨s', p, hcp, hS', hsh, _, hsent, _, hu, _⟩ := calcPipe_ok segs _ ls rtt now hS hg
        rw [hcp] at heq
        first
          | (simp at heq; done)
          | (simp only [Option.some.injEq, Prod.mk.injEq] at heq
             obtain ⟨rfl, rfl⟩ := heq
-            exact ⟨_, _, _, rfl, hS', hu, shape_length _ _ hsh⟩))
+            exact ⟨_, _, _, rfl, hS', hu, shape_length _ _ hsh, tu_congr _ _ hsent⟩))
 
 theorem shape_drop_length (a b : Segments) (k : Nat) (h : shape a = (shape b).drop k) :
     a.segs.length = b.segs.length - k := by
@@ -128,14 +132,22 @@ theorem ackPart_ok (v : VSock) (c : Ctx) (msg : Msg) (h : LInv v) :
   obtain ⟨s', r, k, hrm, hS', hshape, hk, _, _, _, hsnd, hlt, _⟩ :=
     removeUpToAck_ok v.segs v.pollNow msg.h.ackNr msg.h.sack h.sinv h.una
   have hlen' : s'.segs.length = v.segs.segs.length - k := shape_drop_length _ _ _ hshape
-  obtain ⟨hc1, hc2, hc3⟩ := clamp_range v.lastSentSeqNr v.segs.sndUna v.segs.segs.length k h.ls h.una h.len hk h.lo h.hi
-  rw [← hsnd] at hc1 hc2 hc3
+  obtain ⟨hsent, _⟩ := removeUpToAck_sent v.segs v.pollNow msg.h.ackNr msg.h.sack h.sinv h.una s' r hrm
+  have ht' : trailingUnsent s'.segs = min (trailingUnsent v.segs.segs) (v.segs.segs.length - k) := by
+    have e : v.segs.segs.length - s'.segs.length = k := by omega
+    rw [e, ← List.map_drop] at hsent
+    rw [tu_congr _ _ hsent, tu_drop]
+  obtain ⟨hc1, hc2⟩ := clamp_range v.lastSentSeqNr v.segs.sndUna v.segs.segs.length k h.ls h.una h.len hk h.lo h.hi
+  rw [← hsnd] at hc1 hc2
+  have hlo := h.lo
+  have hhi := h.hi
+  have htail := h.tail
   have hg : (seqSub (clampLastSent v.lastSentSeqNr s'.sndUna) s'.sndUna).toNat ≤ s'.segs.length := by
-    rw [hlen']; omega
+    rw [hc2, hlen']; omega
   unfold ackPart
   simp only [bind, Except.bind, pure, Except.pure, hrm]
   cases hrec : v.recovery.isRecovering <;> cases hrtt : r.newRtt <;> simp only [] <;>
-  · obtain ⟨r', segs', cc', hon, hSs, hus, hls⟩ := recovery_onAck_ok v.recovery msg.h s'
+  · obtain ⟨r', segs', cc', hon, hSs, hus, hls, htu⟩ := recovery_onAck_ok v.recovery msg.h s'
       (clampLastSent v.lastSentSeqNr s'.sndUna) _ v.pollNow _ hS' hg
     rw [hon]
     refine ⟨_, _, _, rfl, ?_⟩
@@ -144,8 +156,9 @@ theorem ackPart_ok (v : VSock) (c : Ctx) (msg : Msg) (h : LInv v) :
     · rw [hus]; exact hlt
     · exact hc1
     · rw [hls, hlen']; have := h.len; omega
-    · rw [hus]; exact hc2
-    · rw [hus, hls, hlen']; exact hc3
+    · rw [hus, hc2]; omega
+    · rw [hus, hls, hc2, hlen']; omega
+    · rw [hus, hls, htu, hc2, ht', hlen']; omega
 
 theorem sendControlPacket_frame (v : VSock) (c : Ctx) (h : Header) (v' : VSock) (c' : Ctx) (b : Bool)
     (hs : v.sendControlPacket c h = .ok (v', c', b)) : v'.segs = v.segs ∧ v'.lastSentSeqNr = v.lastSentSeqNr := by
@@ -182,7 +195,7 @@ theorem payloadPart_frame (v : VSock) (c : Ctx) (msg : Msg) (res : OnAckResult) 
 
 theorem LInv.congr {v v' : VSock} (h : LInv v) (e1 : v'.segs = v.segs) (e2 : v'.lastSentSeqNr = v.lastSentSeqNr) : LInv v' :=
   ⟨by rw [e1]; exact h.sinv, by rw [e1]; exact h.una, by rw [e2]; exact h.ls, by rw [e1]; exact h.len,
-   by rw [e1, e2]; exact h.lo, by rw [e1, e2]; exact h.hi⟩
+   by rw [e1, e2]; exact h.lo, by rw [e1, e2]; exact h.hi, by rw [e1, e2]; exact h.tail⟩
 
 /-- **Processing an accepted packet preserves the invariant**, whatever the packet. -/
 theorem processAccepted_linv (v : VSock) (c : Ctx) (msg : Msg) (p : Bool) (v' : VSock) (c' : Ctx) (r : OnAckResult)
@@ -204,26 +217,41 @@ theorem processAccepted_error_from_payload (v : VSock) (c : Ctx) (msg : Msg) (p 
   rw [ha] at hp
   exact ⟨v1, c1, res, ha, hp⟩
 
-theorem stateGate_frame (v : VSock) (hdr : Header) :
-    (v.stateGate hdr).vsock.segs = v.segs ∧ (v.stateGate hdr).vsock.lastSentSeqNr = v.lastSentSeqNr := by
+/-- The state table touches the queue in one place only: when the remote's FIN is accepted in Established the
+never-sent tail is discarded (D22); the invariant's `tail` field is what makes that safe. -/
+theorem stateGate_linv (v : VSock) (hdr : Header) (h : LInv v) : LInv (v.stateGate hdr).vsock := by
   unfold stateGate
   dsimp only
   repeat' split
-  all_goals exact ⟨rfl, rfl⟩
+  all_goals first
+    | exact h.congr rfl rfl
+    | (obtain ⟨hS, hu, _, _, hlen, htu⟩ := discardUnsent_ok v.segs h.sinv
+       have hle := tu_le v.segs.segs
+       have hlo := h.lo
+       have htail := h.tail
+       simp only [Gate.vsock]
+       constructor <;> dsimp only
+       · exact hS
+       · rw [hu]; exact h.una
+       · exact h.ls
+       · rw [hlen]; have := h.len; omega
+       · rw [hu]; exact h.lo
+       · rw [hu, hlen]; omega
+       · rw [hu, hlen, htu]; omega)
 
 theorem processIncomingMessage_linv (v : VSock) (c : Ctx) (msg : Msg) (v' : VSock) (c' : Ctx) (r : OnAckResult)
     (h : LInv v) (hp : v.processIncomingMessage c msg = .ok (v', c', r)) : LInv v' := by
   unfold processIncomingMessage at hp
-  have hf := stateGate_frame v msg.h
+  have hf := stateGate_linv v msg.h h
   split at hp
   · rename_i v1 hg
     simp only [pure, Except.pure, Except.ok.injEq, Prod.mk.injEq] at hp
     rw [hg] at hf
-    rw [← hp.1]; exact h.congr hf.1 hf.2
+    rw [← hp.1]; exact hf
   · simp [throw, throwThe, MonadExceptOf.throw] at hp
   · rename_i v1 hg
     rw [hg] at hf
-    exact processAccepted_linv _ _ _ _ _ _ _ (h.congr hf.1 hf.2) hp
+    exact processAccepted_linv _ _ _ _ _ _ _ hf hp
 
 /-- **Every queue of incoming packets keeps the invariant**: the receive loop of `process_all_incoming_messages`,
 for any number of any packets. -/
@@ -255,9 +283,23 @@ theorem linv_fresh (v : VSock) (u : Nat) (hu : u < 65536) (hs : v.segs = Segment
     (hl : v.lastSentSeqNr = wsub u 1) : LInv v := by
   have e : wsub u 1 = off u (-1) := wsub_one_off u hu
   have hsub : seqSub (wsub u 1) u = -1 := by rw [e]; exact seqSub_off u (-1) hu (by omega)
-  refine ⟨by rw [hs]; exact new_inv u, by rw [hs]; exact hu, by rw [hl, e]; exact off_lt _ _, by rw [hs]; simp [Segments.new], ?_, ?_⟩
+  refine ⟨by rw [hs]; exact new_inv u, by rw [hs]; exact hu, by rw [hl, e]; exact off_lt _ _, by rw [hs]; simp [Segments.new], ?_, ?_, ?_⟩
   · rw [hl, hs]; simp only [Segments.new]; rw [hsub]; omega
   · rw [hl, hs]; simp only [Segments.new]; rw [hsub]; simp
+  · rw [hl, hs]; simp only [Segments.new]; rw [hsub]; simp [trailingUnsent]
+
+/-- marking a queued segment as transmitted: the never-sent tail does not grow and lies beyond that segment -/
+theorem onSent_tail (s : Segments) (idx now : Nat) (hi : idx < s.segs.length) :
+    trailingUnsent (s.onSent idx now).segs ≤ trailingUnsent s.segs ∧
+    idx + 1 + trailingUnsent (s.onSent idx now).segs ≤ s.segs.length := by
+  unfold Segments.onSent
+  cases hg : s.segs[idx]? with
+  | none => exact absurd hg (by simp [List.getElem?_eq_none_iff]; omega)
+  | some g =>
+    have hsent : (g.onSent now).sent ≠ .notSent := by
+      unfold Segment.onSent
+      cases g.sent <;> simp
+    exact ⟨tu_set_le _ _ _ hsent, tu_set_idx _ _ _ hsent hi⟩
 
 /-- what `iter_mut_for_sending` guarantees about a view (`iterForSending_ok`), as far as this invariant needs it -/
 def ValidView (s : Segments) (w : SegView) : Prop := w.idx < s.segs.length ∧ w.seqNr = wadd s.sndUna (w.idx % 65536)
@@ -317,6 +359,10 @@ theorem sendData_linv (v : VSock) (c : Ctx) (hd : Header) (view : SegView) (v' :
             · rw [hu, hseq, seqSub_off _ _ h.una hrange]; omega
             · rw [hu, hlen, hseq, seqSub_off _ _ h.una hrange]
               have := hview.1; omega
+            · rw [hu, hlen, hseq, seqSub_off _ _ h.una hrange]
+              have key : ∀ t, (view.idx : Int) + (trailingUnsent (v.segs.onSent view.idx t).segs : Int) ≤ (v.segs.segs.length : Int) :=
+                fun t => by have := (onSent_tail v.segs view.idx t hview.1).2; omega
+              exact key _
           · simp only [onPacketSent, hgt, Bool.false_eq_true, if_false]
             refine ⟨?_, fun w hw => ⟨by show w.idx < (v.segs.onSent view.idx _).segs.length; rw [hlen]; exact hw.1, by show w.seqNr = wadd (v.segs.onSent view.idx _).sndUna _; rw [hu]; exact hw.2⟩⟩
             constructor <;> dsimp only
@@ -326,6 +372,10 @@ theorem sendData_linv (v : VSock) (c : Ctx) (hd : Header) (view : SegView) (v' :
             · rw [hlen]; exact h.len
             · rw [hu]; exact h.lo
             · rw [hu, hlen]; exact h.hi
+            · rw [hu, hlen]
+              have key : ∀ t, seqSub v.lastSentSeqNr v.segs.sndUna + (trailingUnsent (v.segs.onSent view.idx t).segs : Int) ≤ (v.segs.segs.length : Int) :=
+                fun t => by have := (onSent_tail v.segs view.idx t hview.1).1; have := h.tail; omega
+              exact key _
 
 /-- **The first-transmission loop of `send_tx_queue` preserves the invariant** for every list of valid views. -/
 theorem newDataLoop_linv (hd : Header) (views : List SegView) (v : VSock) (c : Ctx) (rem : Nat)
